@@ -377,9 +377,18 @@ func runCase(w *tr.Writer, seed uint64, idx int, focus string) {
 	var peers []*peer
 	settle := 1500 * time.Microsecond
 	stuck := 0
+	var engineDown func() bool
 	quiet := func() {
+		if engineDown != nil && engineDown() {
+			rec.mu.Lock()
+			rec.exited = true // Run has returned (e.g. a handler asked for shutdown): nothing left to wait for
+			rec.mu.Unlock()
+		}
 		if rec.waitQuiet(settle, 3*time.Second) {
 			stuck = 0
+			return
+		}
+		if engineDown != nil && engineDown() {
 			return
 		}
 		stuck++
@@ -388,6 +397,36 @@ func runCase(w *tr.Writer, seed uint64, idx int, focus string) {
 			// Nothing can be stopped or awaited any more: report and leave the process.
 			rec.Fail("loop-stuck", "no-idle", "the event loop did not become idle within 6 s")
 			w.Case(fmt.Sprintf("L%d", idx), "loop", append(cfg.header(), "seed="+tr.U64(seed), "idx="+tr.I(idx))...)
+			rec.mu.Lock()
+			lo := len(rec.log) - 60
+			// skip the repetitive tail: show the part before the loop started spinning
+			for lo > 0 && rec.log[lo].line.String() == rec.log[len(rec.log)-1].line.String() {
+				lo--
+			}
+			lo -= 50
+			if lo < 0 {
+				lo = 0
+			}
+			if lo < 0 {
+				lo = 0
+			}
+			hi := lo + 70
+			if hi > len(rec.log) {
+				hi = len(rec.log)
+			}
+			for _, e := range rec.log[lo:hi] { // the tail of what the loop did before it wedged
+				l := e.line.String()
+				if len(l) > 160 {
+					l = l[:160]
+				}
+				switch e.tag {
+				case "op":
+					w.Op(tr.L(l))
+				case "obs":
+					w.Obs(tr.L(l))
+				}
+			}
+			rec.mu.Unlock()
 			w.Fail("loop-stuck", "no-idle", "the event loop did not become idle within 6 s (case aborted, process exits)")
 			w.End()
 			w.Close(statsPath)
@@ -404,7 +443,7 @@ func runCase(w *tr.Writer, seed uint64, idx int, focus string) {
 		return 8 * time.Millisecond
 	}
 	stopped := false
-	engineDown := func() bool {
+	engineDown = func() bool {
 		select {
 		case err := <-done:
 			done <- err
@@ -860,7 +899,7 @@ func runCase(w *tr.Writer, seed uint64, idx int, focus string) {
 			w.Fail(e.line.Name, e.line.Args[0], strings.Join(e.line.Args[2:], " "))
 		}
 	}
-	for _, k := range []string{"lifecycle", "fd", "inbound", "outbound", "udp", "fault", "count", "fuel"} {
+	for _, k := range []string{"lifecycle", "fd", "inbound", "outbound", "udp", "fault", "count", "fuel", "outprogress", "inprogress"} {
 		w.Obs(tr.L("chk", k, "1"))
 	}
 	tags := map[string]bool{}
